@@ -21,10 +21,12 @@ type Profile struct {
 	Lang               bool // language switchers and translations
 	LoadErrors         bool // functions that fail on some calls
 	BigValues          bool // results around the declared limit and >= 64 KiB
+	Latin1             bool // some function results contain bytes that are not valid UTF-8 (text from a legacy backend)
 	Croak              bool
 	Catch              bool
 	EndNodes           bool // nodes that end after HALT (graceful) or without one (terminate)
 	MultiHalt          bool
+	EarlyIncmp         bool // some nodes start with INCMP lines, in front of their first HALT (input handled on entry)
 	Interleave         bool // non-INCMP instructions between INCMP lines
 	TailMove           bool // MOVE after the INCMP list
 	Relative           bool // _ ^ . > < targets
@@ -161,6 +163,9 @@ func (g *gen) funcSpec(si symInfo) *FuncSpec {
 			if r.Chance(1, 4) {
 				row += strings.Repeat("x", r.Range(1, 14))
 			}
+			if p.Latin1 && i%3 == 1 {
+				row += "\xe9\xf1" // not UTF-8
+			}
 			if r.Chance(1, 12) {
 				row = ""
 			}
@@ -185,6 +190,17 @@ func (g *gen) funcSpec(si symInfo) *FuncSpec {
 		}
 	case 3:
 		f.Kind = "echo"
+	case 4:
+		if p.Lang {
+			f.Kind = "idlang" // the result depends on the language the function is called with
+		}
+	}
+	if p.Latin1 {
+		if f.Kind == "id" || f.Kind == "" {
+			f.Kind = "len"
+			f.Lens = []int{int(si.size) / 2, int(si.size), 7, 12}
+		}
+		f.Latin1 = f.Kind == "len"
 	}
 	if len(g.flags) > 0 && r.Chance(1, 2) {
 		for k := 0; k < r.Range(1, 3); k++ {
@@ -254,6 +270,17 @@ func (g *gen) node(i int, name string, names []string) *Node {
 		}
 		n.Code = code
 		return n
+	}
+	// input handling in front of the first HALT: skipped when the node is entered by a matched INCMP (directly, or through
+	// a CATCH that fired afterwards), live when it is entered with the input still unmatched
+	if p.EarlyIncmp && i > 0 && r.Chance(1, 4) {
+		for k := 0; k < r.Range(1, 2); k++ {
+			sel := vk.Pick(r, Selectors[:r.Range(3, len(Selectors))])
+			if r.Chance(1, 3) {
+				sel = "*"
+			}
+			code = append(code, codec.Ins{Op: codec.INCMP, S1: g.target(i, name, names), S2: sel})
+		}
 	}
 	// prelude
 	if p.Catch && i+1 < len(names) && r.Chance(1, 4) {
